@@ -61,8 +61,25 @@ def int_expr(draw, size):
     return draw(st.sampled_from(["0!", "5!", "20!", "25!", "3!"]))
 
 
+zero_forms = st.sampled_from(["0", "0.0", "x - x", "y - y", "0 * z", "z * 0", "x * 0.0", "(x + 1) - (1 + x)", "0^2", "-0", "x", "z^2 - z * z", "2^-1 - 0.5", "sgn(0)"])
+numerators = st.one_of(
+    st.sampled_from(["1", "x", "x^y", "2^-1", "x^0.5", "sgn(x)", "2^0.5", "(x + z)^2", "x * y", "3!", "-x", "0", "x^2.0", "1.5", "z^-2"]),
+    st.integers(1, 4).flatmap(lambda n: int_expr(n)),
+)
+
+
+def zero_division_text():
+    """Quotients whose divisor evaluates to zero, with numerators of every number kind (python int, float, and the
+    numpy scalars that powers produce) - the 'division by zero yields NaN' clause."""
+    return st.builds(
+        lambda a, z, form: [f"({a}) / ({z})", f"1 + ({a}) / ({z})", f"(({a}) / ({z}))^2", f"({a}) / ({z}) = 1", f"2 * (({a}) / ({z})) - y"][form],
+        numerators, zero_forms, st.integers(0, 4),
+    )
+
+
 def eval_case():
     texts = st.one_of(
+        zero_division_text(),
         st.integers(1, 8).flatmap(int_expr),
         st.integers(1, 8).flatmap(int_expr),
         G.expr_text(10),
